@@ -7,6 +7,11 @@ PROPS = {
         "partial": "the refinement theorem is about the L2 model (logical segment files; sealing decided by byte sizes, which the proof does not depend on) and programs whose indexes stay below 2^64-1; rotation is performed before the next call (the harness inserts a barrier); model = code is sampled exhaustively over a reduced alphabet to a length bound and randomly beyond, on simfs and on the real filesystem + BoltDB",
         "assumptions": ["no segment file exceeds 4 GiB (uint32 offsets; documented limit)", "immutable.SortedMap as a sorted list with the Seek/Prev semantics read from its source"],
     },
+    "C09": {
+        "suites": ["segment", "golden", "wal"],
+        "partial": "Spec.Format is written from README.md alone (one ambiguity resolved by the property text: the first commit's CRC covers the file header); the CRC-32C primitive is shared between model and spec (external standard, compared with hash/crc32 on every run); the README calls the meta bucket 'wal-state' while the code uses 'wal-meta' (documentation discrepancy, recorded); the BoltDB record itself is compared through the meta op of the wal suite, not proved",
+        "assumptions": ["hash/crc32 Castagnoli = bitwise CRC-32C of Model/Bytes.lean (differential)"],
+    },
     "C11": {
         "suites": ["codec", "segment"],
         "partial": "the universal claim over all byte strings is carried by totality and bound theorems about the model (decoder, scan, read path); that the Go code has no panic site outside the modelled ones is established by the malformed-input stream of the codec/segment suites (run in-process with recover), not by proof; Open-level damage classes and handle release after a failed Open are exercised by the wal-level suites when present",
@@ -16,6 +21,11 @@ PROPS = {
         "suites": ["codec", "wal"],
         "partial": "time.Time is modelled by its MarshalBinary wire form (Go stdlib, trusted); pool aliasing is carried by the generated fact decoderBytesCopies plus the monitor that scribbles over the input buffer after Decode; StoreLogs/GetLog round trip and the codec-ID matrix across reopen are carried by the wal suite (correspondence + monitor)",
         "assumptions": ["time.Time.MarshalBinary/UnmarshalBinary as in Go 1.23 (wire form 15/16 bytes)", "bytes.Buffer.Write never fails"],
+    },
+    "C15": {
+        "suites": ["sizes", "segment"],
+        "partial": "the theorem is about the byte-level segment model under the no-wrap side conditions RunWF (files below 4 GiB, the documented limit; offsets are uint32 in code and model); the 64 MiB cases run on the real code with real payloads and are compared with the size-level functions of the model (64 MiB byte lists are not materialised in Lean)",
+        "assumptions": ["segment files stay below 4 GiB"],
     },
     "C16": {
         "suites": ["verifier"],
